@@ -478,3 +478,58 @@ func factVerifyBeforeStart() {
 	}
 	emit("/-- F5o: Params.Config verifies the initial stack before it starts the callback and monitor goroutines -/\ndef initialVerifyBeforeGoroutines : Bool := %v\n\n", verifyAt >= 0 && startAt >= 0 && verifyAt < startAt)
 }
+
+func init() { allFacts = append(allFacts, factViewVersion) }
+
+// F4v: ViewVersion (the go1.19+ file) takes the config and the serial from ONE atomic load of d.value: the number of
+// d.value.Load() calls and the number of any other calls in its body
+func factViewVersion() {
+	f := parse("dials_119.go")
+	loads, others := 0, 0
+	fd := funcDecl(f, "ViewVersion")
+	if fd == nil {
+		miss("F4v", "dials_119.go: func (d *Dials[T]) ViewVersion()")
+	} else {
+		ast.Inspect(fd.Body, func(n ast.Node) bool {
+			if ce, ok := n.(*ast.CallExpr); ok {
+				if src(ce.Fun) == "d.value.Load" {
+					loads++
+				} else {
+					others++
+				}
+			}
+			return true
+		})
+	}
+	emit("/-- F4v: calls of d.value.Load() / any other calls in the body of ViewVersion (dials_119.go) -/\ndef viewVersionLoads : Nat := %d\ndef viewVersionOtherCalls : Nat := %d\n\n", loads, others)
+}
+
+func init() { allFacts = append(allFacts, factQueueNeverClosed) }
+
+// F3c: the callback queue (d.cbch, the callback manager's cbm.ch) has several senders - RegisterCallback, unregister,
+// the monitor - and is therefore never closed: number of close() calls on it in dials.go and cb_mgr.go; the monitor
+// announces its exit by closing d.monDone
+func factQueueNeverClosed() {
+	closes, doneCloses := 0, 0
+	for _, rel := range []string{"dials.go", "cb_mgr.go"} {
+		f := parse(rel)
+		if f == nil {
+			miss("F3c", rel)
+			continue
+		}
+		ast.Inspect(f, func(n ast.Node) bool {
+			ce, ok := n.(*ast.CallExpr)
+			if !ok || src(ce.Fun) != "close" || len(ce.Args) != 1 {
+				return true
+			}
+			switch a := src(ce.Args[0]); {
+			case strings.HasSuffix(a, ".cbch") || a == "cbch" || strings.HasSuffix(a, "cbm.ch"):
+				closes++
+			case a == "d.monDone":
+				doneCloses++
+			}
+			return true
+		})
+	}
+	emit("/-- F3c: close() calls on the callback queue / on d.monDone in dials.go and cb_mgr.go -/\ndef callbackQueueCloses : Nat := %d\ndef monDoneCloses : Nat := %d\n\n", closes, doneCloses)
+}
